@@ -231,8 +231,10 @@ func (p *Parser) ParseRemainingExpressionWithPrecedence(left ast.Expression, pre
 			return left
 		}
 		// The value of a postfix `++`/`--` is not a reference: it cannot be called,
-		// accessed or updated again (after a line break the token starts a new statement)
-		if _, isPostfix := left.(*ast.PostfixExpression); isPostfix {
+		// accessed or updated again (after a line break the token starts a new statement).
+		// The current token is the operator itself whenever the operand read so far ends
+		// in a postfix update, also when that update is nested (`x = a++`, `-a++`, `b + a++`)
+		if p.CurrentToken.Type == token.INCREMENT || p.CurrentToken.Type == token.DECREMENT {
 			switch p.PeekToken.Type {
 			case token.LPAREN, token.LBRACKET, token.DOT, token.INCREMENT, token.DECREMENT:
 				if !p.PeekToken.AfterNewline {
